@@ -203,3 +203,37 @@ func (e *Engine) rebindRenamedFunctions() {
 		e.renamed = append(e.renamed, fmt.Sprintf("contract of %s applied to %s (same package, receiver and signature; a name the unchanged tree does not have)", shortKey(k), shortKey(cands[0])))
 	}
 }
+
+
+var baselineFunctionNames map[string]string
+
+// knownOnBaseline: did the unchanged tree have a function of this name?
+func knownOnBaseline(key string) bool {
+	if baselineFunctionNames == nil {
+		baselineFunctionNames = map[string]string{}
+		if data, err := os.ReadFile(baselineFunctionsPath); err == nil {
+			json.Unmarshal(data, &baselineFunctionNames)
+		}
+		if len(baselineFunctionNames) == 0 {
+			baselineFunctionNames["?"] = "" // no table: treat every function as known
+		}
+	}
+	if _, noTable := baselineFunctionNames["?"]; noTable {
+		return true
+	}
+	_, ok := baselineFunctionNames[key]
+	return ok
+}
+
+// countLoopHeaders: number of natural-loop headers of fn.
+func countLoopHeaders(fn *ssa.Function) int {
+	hdr := map[int]bool{}
+	for _, b := range fn.Blocks {
+		for _, s := range b.Succs {
+			if s.Dominates(b) {
+				hdr[s.Index] = true
+			}
+		}
+	}
+	return len(hdr)
+}
